@@ -276,7 +276,8 @@ func runRPCStress(args []string) {
 	callers, _ := strconv.Atoi(args[1])
 	calls, _ := strconv.Atoi(args[2])
 	transport := args[3]
-	lazy := args[4] == "1"
+	lazy := args[4] == "1" || args[4] == "2"
+	unlimited := args[4] == "2" // a Remote as a library user builds it: no limit on pending calls configured
 	statusFile = args[6]
 	tr, err := newTrace(args[5])
 	if err != nil {
@@ -300,6 +301,9 @@ func runRPCStress(args []string) {
 			fatal("register: %v", err)
 		}
 		r := &jsonrpc2.Remote{Codec: &traceCodec{Codec: codec, ep: ep, log: log}, Server: srv, PendingLimit: 50, PendingDiscard: 10}
+		if unlimited {
+			r.PendingLimit, r.PendingDiscard = 0, 0
+		}
 		if !lazy {
 			r.Client = &jsonrpc2.Client{}
 		}
@@ -328,11 +332,14 @@ func runRPCStress(args []string) {
 					if wideDepth >= 0 {
 						depth, mode = wideDepth, "plain"
 					}
+					if wideDepth >= 0 && unlimited {
+						mode = "gated" // held by the handler until every caller's request is in flight (released below)
+					}
 					if fakeClock == false && mode == "late" {
 						mode = "cancel"
 					}
 					ctx, cancel := context.WithCancel(context.Background())
-					hold := mode == "late"
+					hold := mode == "late" || mode == "gated"
 					if mode == "cancel" || mode == "late" {
 						delay := time.Duration(rng.Intn(3)) * time.Millisecond
 						go func() {
@@ -356,6 +363,39 @@ func runRPCStress(args []string) {
 				}
 			}(ep, c)
 		}
+	}
+	if wideDepth >= 0 && unlimited {
+		// release the held handlers once all calls of the round are outstanding at the same time
+		go func() {
+			for round := 0; round < calls; round++ {
+				for {
+					n := 0
+					outstanding.Range(func(k, v interface{}) bool { n++; return true })
+					if n >= callers {
+						break
+					}
+					time.Sleep(time.Millisecond)
+				}
+				time.Sleep(20 * time.Millisecond)
+				outstanding.Range(func(k, v interface{}) bool {
+					g, _ := gates.LoadOrStore(k.(string), make(chan struct{}))
+					select {
+					case <-g.(chan struct{}):
+					default:
+						close(g.(chan struct{}))
+					}
+					return true
+				})
+				for { // wait for the round to drain
+					n := 0
+					outstanding.Range(func(k, v interface{}) bool { n++; return true })
+					if n == 0 || n >= callers && round+1 < calls {
+						break
+					}
+					time.Sleep(time.Millisecond)
+				}
+			}
+		}()
 	}
 	done := make(chan struct{})
 	go func() { wg.Wait(); close(done) }()
